@@ -31,7 +31,7 @@ def B(b): return V("bool", 0, "true" if b else "false")
 def M(ents, kind="str"): return V("map", 0, kind, e=[{"k": k, "v": v} for k, v in ents])
 
 
-VALUES = [I(-1), I(0), I(1), I(2), I(3), F(0), F(15), F(-25), F(20),
+VALUES = [I(-1), I(0), I(1), I(2), I(3), F(0), F(15), F(-25), F(20), F(25), F(-5),       # 2.5 and -0.5: a fraction across each integer bound
           S(""), S("a"), S("ab"), S("abc"), S("true"), S("false"),
           B(True), B(False), V("sym", 0, "foo"), V("nil"),
           V("vec"), V("vec", c=[I(1)]), V("vec", c=[I(1), S("a")]), V("vec", c=[S("a"), S("b")]),
